@@ -62,6 +62,11 @@ fn interp_text(a: &[parse::Attribute]) -> String {
     format!("skip={} recurse={} all_setters={} coll={} map={} setter={} skip_setter={} setter_name={} expose={}", shared::attrs_skip(a) as u8, shared::attrs_recurse(a) as u8,
         shared::attrs_all_setters(a) as u8, coll, map, local as u8, skip_s as u8, name.as_deref().map(esc).unwrap_or_else(|| "-".to_string()), expose)
 }
+fn enum_text(e: &parse::Enum) -> String {
+    format!("ENUM name={} attrs=[ {}] generics=[ {}] variants=[ {}]", esc(&e.name), attrs_text(&e.attributes),
+        e.generics.iter().map(|g| generic_text(g) + " ").collect::<String>(),
+        e.variants.iter().map(|f| format!("{{ [ {}] {} {} }} ", attrs_text(&f.attributes), f.field_name.as_deref().map(esc).unwrap_or_else(|| "-".to_string()), ty_text(&f.ty))).collect::<String>())
+}
 fn struct_text(s: &parse::Struct) -> String {
     format!("name={} named={} attrs=[ {}] generics=[ {}] fields=[ {}]",
         s.name.as_deref().map(esc).unwrap_or_else(|| "-".to_string()), s.named as u8, attrs_text(&s.attributes),
@@ -96,6 +101,7 @@ fn ty_text(t: &Type) -> String {
         Category::Tuple { contents } => format!("Tuple[ {}]", contents.iter().map(|c| ty_text(c) + " ").collect::<String>()),
         Category::Array { content_type, len } => format!("Array[ {} {} ]", ty_text(content_type), match len {
             None => "-".to_string(), Some(ConstValType::Value(n)) => format!("V{}", n), Some(ConstValType::Named(t)) => format!("N {}", ty_text(t)) }),
+        Category::AnonymousStruct { contents } => format!("Anon[ {}]", contents.fields.iter().map(|f| format!("{{ [ {}] {} {} }} ", attrs_text(&f.attributes), f.field_name.as_deref().map(esc).unwrap_or_else(|| "-".to_string()), ty_text(&f.ty))).collect::<String>()),
         _ => "UnsupCat".to_string(),
     };
     let wraps = match &t.wraps { None => "-".to_string(), Some(w) => format!("{{ {}}}", w.iter().map(|c| ty_text(c) + " ").collect::<String>()) };
@@ -144,7 +150,7 @@ pub fn dump_parse(input: TokenStream) -> TokenStream {
     // the struct's name and body group
     let toks: Vec<TokenTree> = input.clone().into_iter().collect();
     let mut sname = String::from("?");
-    for w in toks.windows(2) { if let (TokenTree::Ident(a), TokenTree::Ident(b)) = (&w[0], &w[1]) { if a.to_string() == "struct" { sname = b.to_string(); } } }
+    for w in toks.windows(2) { if let (TokenTree::Ident(a), TokenTree::Ident(b)) = (&w[0], &w[1]) { if a.to_string() == "struct" || a.to_string() == "enum" { sname = b.to_string(); } } }
     let body = toks.iter().rev().find_map(|t| match t { TokenTree::Group(g) if g.delimiter() == Delimiter::Brace => Some(g.stream()), _ => None });
     let fields = body.map(field_type_tokens).unwrap_or_default();
     // the whole item: token trees as received, and what parse_data makes of them (coq/parse/ParseDecl.v)
@@ -162,7 +168,8 @@ pub fn dump_parse(input: TokenStream) -> TokenStream {
                 text.push_str(&format!("ITEM {} FUSED{} lifetimes=[ {}] array_lens=[ {}]\n", sname, k, lts, lens));
             }
         }
-        Ok(_) => text.push_str(&format!("ITEM {} PARSED ENUM\n", sname)),
+        Ok(Data::Enum(e)) => text.push_str(&format!("ITEM {} PARSED {}\n", sname, enum_text(e))),
+        Ok(_) => text.push_str(&format!("ITEM {} PARSED UNION\n", sname)),
     }
     match parsed {
         Err(_) => {
